@@ -1,0 +1,289 @@
+//! Verification hooks
+//!
+//! This module only exists when the crate is compiled with `--cfg erikbrinkman_cfr_verif`. It adds
+//! no behaviour of its own: it lets an external harness observe or pin the random draws of the
+//! sampled solvers, call the multi-threaded solvers with an explicit task target, call the private
+//! categorical sampler with a chosen uniform variate, and read the compact game representation.
+use crate::solve::{external, vanilla, Multinomial};
+use crate::{Game, Node, PlayerNum, RegretBound, RegretParams, SolveError, SolveMethod, Strategies};
+use rand::RngCore;
+use rand_distr::Distribution;
+use std::cell::RefCell;
+use std::fmt;
+use std::num::NonZeroUsize;
+use std::sync::Arc;
+
+/// The kind of sampling site
+#[derive(Debug, Clone, Copy, PartialEq, Eq, Hash, PartialOrd, Ord)]
+pub enum Kind {
+    /// A chance infoset (`SampledChance`), numbered in construction order
+    Chance,
+    /// A player infoset of the external sampler (`CachedInfoset`), numbered in construction order:
+    /// all of player one's infosets first, then all of player two's
+    Player,
+}
+
+/// Identity of one potential draw: which infoset, in which pass
+#[derive(Debug, Clone, Copy, PartialEq, Eq, Hash, PartialOrd, Ord)]
+pub struct Key {
+    /// kind of site
+    pub kind: Kind,
+    /// construction index of the site within its kind
+    pub id: usize,
+    /// number of times the site was reset / advanced before this draw
+    pub pass: u64,
+}
+
+/// The harness side of a sampling session
+pub trait Decider: Send + Sync {
+    /// Return `Some(index)` to replace the production draw, `None` to let it happen
+    fn decide(&self, key: Key, weights: &[f64]) -> Option<usize>;
+    /// Called with the result of a production draw that was not replaced
+    fn observe(&self, key: Key, weights: &[f64], result: usize);
+}
+
+struct Session {
+    decider: Arc<dyn Decider>,
+    next_id: [usize; 2],
+}
+
+thread_local! {
+    static SESSION: RefCell<Option<Session>> = const { RefCell::new(None) };
+}
+
+struct Restore(Option<Session>);
+
+impl Drop for Restore {
+    fn drop(&mut self) {
+        let prev = self.0.take();
+        SESSION.with(|s| *s.borrow_mut() = prev);
+    }
+}
+
+/// Run `func` with every sampling site that is *constructed* on this thread during the call
+/// attached to `decider`
+pub fn with_session<R>(decider: Arc<dyn Decider>, func: impl FnOnce() -> R) -> R {
+    let prev = SESSION.with(|s| {
+        s.borrow_mut().replace(Session {
+            decider,
+            next_id: [0; 2],
+        })
+    });
+    let _restore = Restore(prev);
+    func()
+}
+
+/// Per-site hook state, embedded in `SampledChance` and `CachedInfoset`
+pub struct Site {
+    decider: Option<Arc<dyn Decider>>,
+    kind: Kind,
+    id: usize,
+    pass: u64,
+    weights: Option<Box<[f64]>>,
+}
+
+impl fmt::Debug for Site {
+    fn fmt(&self, fmt: &mut fmt::Formatter<'_>) -> fmt::Result {
+        write!(fmt, "Site({:?}, {}, {})", self.kind, self.id, self.pass)
+    }
+}
+
+impl Site {
+    /// Create the hook state of a new sampling site; `weights` are the weights the site was
+    /// constructed from when they are fixed for its lifetime
+    pub fn new(kind: Kind, weights: Option<&[f64]>) -> Site {
+        let (decider, id) = SESSION.with(|s| match &mut *s.borrow_mut() {
+            Some(session) => {
+                let slot = &mut session.next_id[kind as usize];
+                let id = *slot;
+                *slot += 1;
+                (Some(session.decider.clone()), id)
+            }
+            None => (None, 0),
+        });
+        Site {
+            decider,
+            kind,
+            id,
+            pass: 0,
+            weights: weights.map(|w| w.into()),
+        }
+    }
+
+    /// Record that the site was reset, so that its next draw belongs to a new pass
+    pub fn next_pass(&mut self) {
+        self.pass += 1;
+    }
+
+    /// Observe or replace one production draw
+    pub fn draw(&self, weights: Option<&[f64]>, production: impl FnOnce() -> usize) -> usize {
+        match &self.decider {
+            None => production(),
+            Some(decider) => {
+                let weights = weights.or(self.weights.as_deref()).unwrap_or(&[]);
+                let key = Key {
+                    kind: self.kind,
+                    id: self.id,
+                    pass: self.pass,
+                };
+                match decider.decide(key, weights) {
+                    Some(ind) => ind,
+                    None => {
+                        let res = production();
+                        decider.observe(key, weights, res);
+                        res
+                    }
+                }
+            }
+        }
+    }
+}
+
+/// [Game::solve] with an explicit task target: always runs the multi-threaded implementation with
+/// `num_threads` workers and a frontier of about `target` tasks
+pub fn solve_with_target<I, A>(
+    game: &Game<I, A>,
+    method: SolveMethod,
+    max_iter: u64,
+    max_reg: f64,
+    num_threads: NonZeroUsize,
+    target: NonZeroUsize,
+    params: Option<RegretParams>,
+) -> Result<(Strategies<'_, I, A>, RegretBound), SolveError> {
+    let [first_player, second_player] = &game.player_infosets;
+    let params = params.unwrap_or_default();
+    let thread_info = (num_threads, target);
+    let (regrets, probs) = match method {
+        SolveMethod::Full => vanilla::solve_full_multi(
+            &game.root,
+            &game.chance_infosets,
+            [first_player, second_player],
+            max_iter,
+            max_reg,
+            thread_info,
+            &params,
+        ),
+        SolveMethod::Sampled => vanilla::solve_sampled_multi(
+            &game.root,
+            &game.chance_infosets,
+            [first_player, second_player],
+            max_iter,
+            max_reg,
+            thread_info,
+            &params,
+        ),
+        SolveMethod::External => external::solve_external_multi(
+            &game.root,
+            &game.chance_infosets,
+            [first_player, second_player],
+            max_iter,
+            max_reg,
+            thread_info,
+            &params,
+        ),
+    }?;
+    Ok((Strategies { game, probs }, RegretBound::new(regrets)))
+}
+
+struct FixedBits(u64);
+
+impl RngCore for FixedBits {
+    fn next_u32(&mut self) -> u32 {
+        (self.0 >> 32) as u32
+    }
+
+    fn next_u64(&mut self) -> u64 {
+        self.0
+    }
+
+    fn fill_bytes(&mut self, dest: &mut [u8]) {
+        for (byte, val) in dest.iter_mut().zip(self.0.to_le_bytes().iter().cycle()) {
+            *byte = *val;
+        }
+    }
+
+    fn try_fill_bytes(&mut self, dest: &mut [u8]) -> Result<(), rand::Error> {
+        self.fill_bytes(dest);
+        Ok(())
+    }
+}
+
+/// The index the private categorical sampler returns over `probs` when its uniform variate is
+/// `mantissa * 2^-53` (`mantissa < 2^53`)
+pub fn multinomial_index(probs: &[f64], mantissa: u64) -> usize {
+    Multinomial::new(probs).sample(&mut FixedBits(mantissa << 11))
+}
+
+/// A node of the compact tree
+#[derive(Debug, Clone, PartialEq)]
+pub enum DumpNode {
+    /// terminal with the payoff to player one
+    Terminal(f64),
+    /// chance node: infoset index and outcomes
+    Chance(usize, Vec<DumpNode>),
+    /// player node: player, infoset index and actions
+    Player(PlayerNum, usize, Vec<DumpNode>),
+}
+
+/// The compact representation of a game
+#[derive(Debug, Clone, PartialEq)]
+pub struct Dump {
+    /// the compact tree
+    pub root: DumpNode,
+    /// normalised probabilities of each chance infoset
+    pub chance_probs: Vec<Vec<f64>>,
+    /// `(number of actions, previous infoset)` of each multi-action infoset of each player
+    pub player_infosets: [Vec<(usize, Option<usize>)>; 2],
+    /// number of single-action infosets of each player
+    pub num_singles: [usize; 2],
+}
+
+fn dump_node(node: &Node) -> DumpNode {
+    match node {
+        Node::Terminal(pay) => DumpNode::Terminal(*pay),
+        Node::Chance(chance) => DumpNode::Chance(
+            chance.infoset,
+            chance.outcomes.iter().map(dump_node).collect(),
+        ),
+        Node::Player(player) => DumpNode::Player(
+            player.num,
+            player.infoset,
+            player.actions.iter().map(dump_node).collect(),
+        ),
+    }
+}
+
+/// Read the compact representation of a game
+pub fn dump<I, A>(game: &Game<I, A>) -> Dump {
+    Dump {
+        root: dump_node(&game.root),
+        chance_probs: game
+            .chance_infosets
+            .iter()
+            .map(|info| info.probs.to_vec())
+            .collect(),
+        player_infosets: [0, 1].map(|ind| {
+            game.player_infosets[ind]
+                .iter()
+                .map(|info| (info.actions.len(), info.prev_infoset))
+                .collect()
+        }),
+        num_singles: [0, 1].map(|ind| game.single_infosets[ind].len()),
+    }
+}
+
+/// The names and actions of the multi-action infosets of each player, in index order
+pub fn infoset_names<I, A>(game: &Game<I, A>) -> [Vec<(&I, &[A])>; 2] {
+    [0, 1].map(|ind| {
+        game.player_infosets[ind]
+            .iter()
+            .map(|info| (&info.infoset, &*info.actions))
+            .collect()
+    })
+}
+
+/// The raw dense probabilities of a strategy profile, in infoset index order
+pub fn raw_probs<'a, I, A>(strats: &'a Strategies<'_, I, A>) -> [&'a [f64]; 2] {
+    let [one, two] = &strats.probs;
+    [one, two]
+}
